@@ -280,30 +280,6 @@ def agree(impl, model, req_=None):
     return impl == model
 
 
-def _g1(doc, impl, mode):
-    """finding G1: a document starting with CR CR CR — get_first_char leaves the second CR raw, HANDLE_EOL then takes it and the
-    LF made from the third CR for one CR LF pair: every line number is one too low (nothing else differs)"""
-    if doc[:3] != [CR, CR, CR]:
-        return False
-    if mode in "dkh":
-        t = impl.split(" ")
-        return len(t) > 1 and unhexs(t[1]) == [LF, CR] + normalize_eol(doc[2:])
-    m = re.search(r" ref=(.*)$", impl)
-    if not m or m.group(1) == "=":
-        return False
-    obs = impl[3:impl.index(" counts=")]
-    if mode in "pq":
-        obs = obs.split(" ", 1)[1]          # drop ws=
-    a, b = _kv("x " + obs), _kv("x " + m.group(1))
-
-    def shift(errs):
-        if errs == "-":
-            return errs
-        return ",".join("%s:%d" % (e.split(":")[0], int(e.split(":")[1]) + 1) for e in errs.split(","))
-    return (a.get("rc") == b.get("rc") and a.get("cif") == b.get("cif") and int(a["lines"]) + 1 == int(b["lines"])
-            and shift(a.get("err", "-")) == b.get("err", "-"))
-
-
 def oracle(req_, impl):
     t = req_.split(" ")
     if len(t) < 4 or not impl.startswith("fl "):
@@ -330,14 +306,7 @@ def oracle(req_, impl):
 
 
 def finding_class(req_, impl, model, why):
-    t = req_.split(" ")
-    if len(t) >= 4 and not impl.startswith(("SAN:", "CRASH:", "TIMEOUT")):
-        try:
-            if _g1(unhexs(t[2]), impl, t[1]):
-                return "G1: input starts with CR CR CR; all line numbers one too low, nothing else differs"
-        except Exception:
-            return None
-    return None
+    return None          # no open finding (G1 — three leading CRs — was repaired by /repo commit a8669bf)
 
 
 def nontrivial(req_, impl):
